@@ -77,6 +77,24 @@ theorem find_duplicates_eq_spec (tol : α) (v : List α) : findDuplicates tol v 
           decide (0 < k) && (List.map (fun p => !decide (tol < absd p.2 p.1))
             ((List.map (fun x => x.1) s).zip (List.map (fun x => x.1) s).tail)).getD (k - 1) false) p hq k hk (by rw [hkp])
 
+/-- the same, position by position, in plain terms: `find_duplicates(v, tol)[p]` is `True` iff some
+OTHER position `q` holds a value with `|v[q] - v[p]| ≤ tol` (non-strict: a difference of exactly `tol`
+is a duplicate; `tol = 0`: exactly the repeated values). -/
+theorem find_duplicates_iff (tol : α) (v : List α) (p : Nat) (hp : p < v.length) :
+    (findDuplicates tol v)[p]? = some true ↔
+      ∃ q, ∃ hq : q < v.length, q ≠ p ∧ |v[q] - v[p]| ≤ tol := by
+  rw [find_duplicates_eq_spec]
+  simp only [dupSpec, List.getElem?_map, List.getElem?_zipIdx, List.getElem?_eq_getElem hp,
+    Option.map_some, Option.some.injEq, List.any_eq_true, Bool.and_eq_true, decide_eq_true_eq,
+    Bool.not_eq_true', decide_eq_false_iff_not, not_lt, absd_eq_abs, zero_add]
+  constructor
+  · rintro ⟨⟨x, q⟩, hm, hne, hle⟩
+    obtain ⟨hq, hx⟩ := List.getElem?_eq_some_iff.mp (List.mem_zipIdx_iff_getElem?.mp hm)
+    simp only at hq hx hne hle
+    exact ⟨q, hq, hne, by rw [hx]; exact hle⟩
+  · rintro ⟨q, hq, hne, hle⟩
+    exact ⟨(v[q], q), List.mem_zipIdx_iff_getElem?.mpr (List.getElem?_eq_getElem hq), hne, hle⟩
+
 theorem find_duplicates_length (tol : α) (v : List α) : (findDuplicates tol v).length = v.length := by
   rw [find_duplicates_eq_spec]; simp [dupSpec]
 
